@@ -704,6 +704,9 @@ func (rw *rewriter) selectStmt(s *ast.SelectStmt) ast.Stmt {
 	}
 	args := append([]ast.Expr{id(hd)}, cases...)
 	pre = append(pre, define([]ast.Expr{sel}, rw.simrt("Select", args...)))
+	// a select whose branches all end in return / panic / goto is a terminating
+	// statement; a switch is one only with a default clause
+	clauses = append(clauses, &ast.CaseClause{Body: []ast.Stmt{&ast.ExprStmt{X: &ast.CallExpr{Fun: id("panic"), Args: []ast.Expr{&ast.BasicLit{Kind: token.STRING, Value: `"simrt.Select: no such case"`}}}}}})
 	sw := &ast.SwitchStmt{Tag: &ast.SelectorExpr{X: sel, Sel: id("Index")}, Body: &ast.BlockStmt{List: clauses}}
 	pre = append(pre, sw)
 	return &ast.BlockStmt{List: pre}
